@@ -625,7 +625,7 @@ func runMutationCorpus(id string, seed int) *mutationReport {
 		}
 		cmd := exec.Command(self, "check", "--property", id, "--tier", "quick")
 		cmd.Dir = verifRoot
-		cmd.Env = append(os.Environ(), "GOVC_REPO="+scratch, "VERIF_TIER=quick", fmt.Sprintf("VERIF_SEED=%d", seed))
+		cmd.Env = append(os.Environ(), "GOVC_REPO="+scratch, "GOVC_FAIL_FAST=1", "VERIF_TIER=quick", fmt.Sprintf("VERIF_SEED=%d", seed))
 		out, _ := cmd.CombinedOutput()
 		code := cmd.ProcessState.ExitCode()
 		first := ""
